@@ -39,7 +39,9 @@ def check(cx):
     r1 = cx.rule("C17.1", "shared with C01.3/C01.4/C01.7: the force is a force, placement and block count continue from "
                  "what is on disk, only the pager appends/forces (evaluated by the C01 module on the same facts)", floor=1)
     sub = type(cx)(cx.prop, cx.tier, cx.p, cx.progs)
-    c01.check(sub)
+    sub.nested = True
+    if not getattr(cx, "nested", False):
+        c01.check(sub)
     for o in sub.obl:
         if o["rule"] in ("C01.3", "C01.4", "C01.7"):
             key = o["key"].replace("C01.", "from-C01.")
